@@ -35,7 +35,7 @@ def tokenize(s: str) -> list[str]:
     i = 0
     while i < len(s):
         c = s[i]
-        if c in " \t\n":
+        if c in " \t\n\r":
             i += 1
         elif c in "()":
             toks.append(c)
